@@ -350,6 +350,70 @@ let spec_history (n : int) (lines : string list) : unit =
     lines;
   print_string "END\n"
 
+(* ---- bfs mode: breadth-first closure of the model's state space over a tiny
+   domain (ids 0..cap-1, a few labels and data values), printed as ONE history
+   that tours every (state, call) transition once: the state is cloned, the
+   call is made on the clone, and a state seen for the first time keeps a
+   handle.  Running this history through the normal correspondence check
+   compares every transition of the closed space on model and implementation,
+   complete internal state included. *)
+let bfs (n : int) (cap : int) (nlab : int) (ndat : int) (maxstates : int) : unit =
+  let n_edges = nat_of_int n in
+  let labels = List.filteri (fun i _ -> i < nlab) [ "A0"; "G3c1"; "S66.6f.6f.20.20.20.20.20" ] in
+  let datas = List.filteri (fun i _ -> i < ndat) [ "V0102"; "B0900000000000000:1"; "V0102030405060708090a" ] in
+  let seen : (string, int) Hashtbl.t = Hashtbl.create 100000 in
+  let queue : (int * sodg) Queue.t = Queue.create () in
+  let buf = Buffer.create (1 lsl 20) in
+  let emit s = Buffer.add_string buf s; Buffer.add_char buf '\n' in
+  let g0 = op_empty (nat_of_int cap) in
+  Hashtbl.replace seen (snap_out g0) 0;
+  Queue.add (0, g0) queue;
+  emit (Printf.sprintf "NEW s0 %d" cap);
+  let nstates = ref 1 and ntrans = ref 0 and closed = ref true in
+  let present g v = int_of_nat (tag g (nat_of_int v)) <> 0 in
+  let try_op (k : int) (g : sodg) (text : string) (r : sodg outcome) =
+    match r with
+    | Ok g' ->
+        incr ntrans;
+        emit (Printf.sprintf "CLONE s%d t" k);
+        emit (text);
+        let key = snap_out g' in
+        if not (Hashtbl.mem seen key) then begin
+          if !nstates >= maxstates then closed := false
+          else begin
+            Hashtbl.replace seen key !nstates;
+            emit (Printf.sprintf "CLONE t s%d" !nstates);
+            Queue.add (!nstates, g') queue;
+            incr nstates
+          end
+        end
+    | _ -> ()   (* a panic: outside the limits, not part of the closed space *)
+  in
+  while not (Queue.is_empty queue) do
+    let k, g = Queue.pop queue in
+    for v = 0 to cap - 1 do
+      try_op k g (Printf.sprintf "ADD t %d" v) (op_add g (nat_of_int v));
+      if present g v then begin
+        List.iter (fun d -> try_op k g (Printf.sprintf "PUT t %d %s" v d) (op_put g (nat_of_int v) (hex_in d))) datas;
+        try_op k g (Printf.sprintf "DATA t %d" v)
+          (match op_data g (nat_of_int v) with Ok (g', _) -> Ok g' | Panic p -> Panic p | OutOfFuel -> OutOfFuel | Unmodelled -> Unmodelled);
+        for w = 0 to cap - 1 do
+          if w <> v && present g w then
+            List.iter
+              (fun a ->
+                try_op k g (Printf.sprintf "BIND t %d %d %s" v w a)
+                  (op_bind n_edges g (nat_of_int v) (nat_of_int w) (label_in a)))
+              labels
+        done
+      end
+    done;
+    try_op k g "NEXT t"
+      (match op_next_id g with Ok (g', _) -> Ok g' | Panic p -> Panic p | OutOfFuel -> OutOfFuel | Unmodelled -> Unmodelled)
+  done;
+  Printf.printf "# bfs n=%d cap=%d labels=%d data=%d states=%d transitions=%d closed=%b\n" n cap nlab ndat !nstates !ntrans !closed;
+  Printf.printf "H bfs-%d-%d-%d-%d %d\n" n cap nlab ndat n;
+  print_string (Buffer.contents buf)
+
 let spec_mode = Array.length Sys.argv > 1 && Sys.argv.(1) = "spec"
 
 let main () =
@@ -376,4 +440,8 @@ let main () =
    with End_of_file -> ());
   flush ()
 
-let () = main ()
+let () =
+  if Array.length Sys.argv > 1 && Sys.argv.(1) = "bfs" then
+    bfs (int_of_string Sys.argv.(2)) (int_of_string Sys.argv.(3)) (int_of_string Sys.argv.(4))
+      (int_of_string Sys.argv.(5)) (int_of_string Sys.argv.(6))
+  else main ()
